@@ -476,6 +476,10 @@ inline py::tuple StructSequenceGetFields(const py::handle& object) {
 }
 
 inline void TotalOrderSort(py::list& list) {  // NOLINT[runtime/references]
+    // Remember the insertion order: a failed `list.sort()` leaves the list partially sorted.
+    const py::list original = EVALUATE_WITH_LOCK_HELD(
+        py::reinterpret_steal<py::list>(PyList_GetSlice(list.ptr(), 0, PyList_GET_SIZE(list.ptr()))),
+        list);
     try {
         // Sort directly if possible.
         if (static_cast<bool>(EVALUATE_WITH_LOCK_HELD(PyList_Sort(list.ptr()), list)))
@@ -504,6 +508,14 @@ inline void TotalOrderSort(py::list& list) {  // NOLINT[runtime/references]
                     // Found incomparable user-defined key types.
                     // The keys remain in the insertion order.
                     PyErr_Clear();
+                    if (static_cast<bool>(EVALUATE_WITH_LOCK_HELD(
+                            PyList_SetSlice(list.ptr(),
+                                            0,
+                                            PyList_GET_SIZE(list.ptr()),
+                                            original.ptr()),
+                            list))) [[unlikely]] {
+                        throw py::error_already_set();
+                    }
                 } else [[unlikely]] {
                     std::rethrow_exception(std::current_exception());
                 }
